@@ -10,7 +10,10 @@ Layers (= harness names = second component of violation keys):
   client-iter-copy / -buffered          AsyncTCPNetworkClient.iter_received_packets(timeout)
   tls-recv / tls-recv_into              AsyncTLSStreamTransport.recv / recv_into over the adapter, reference TLSPeer, cipher-text via AlignedFeed
   tls-duplex-recv / -recv_into          the same while two writer tasks share the connection and the peer does not read: writer 1 stuck in
-                                        send_all owning the transport send lock, writer 2 encrypted and queued for it (capacity_small + peer_stops_reading)
+                                        send_all owning the transport send lock, writer 2 encrypted and queued for it (capacity_small + peer_stops_reading);
+                                        history mode (two runs in three): both send_all() calls are then abandoned (timeout / move_on scope,
+                                        task.cancel()) while the peer still does not read, so that cipher-text stays pending in the write
+                                        BIO with nobody flushing it; later receives run under the usual cancel kinds (defect D31)
   server-copy / server-buffered         real AsyncTCPNetworkServer, handler does ``request = yield timeout``
   blocking-endpoint-copy / -into            blocking StreamEndpoint.recv_packet(timeout) ending in TimeoutError
 (the thread scheduler does not exist yet; threaded harnesses can be added as further Harness entries built on
@@ -65,7 +68,8 @@ RULE = (
     "cancellation tie often; coincidence bias re-times a pending chunk onto the loop's next timer (same iteration read-first / "
     "next iteration); receiver pauses let the transport's internal buffer fill; 18 harnesses over 7 layers (adapter, endpoint, client, client iterator, TLS transport with cipher-text records fed whole or cut in two, server, blocking endpoint); "
     "TLS also in full-duplex use (tls-duplex-*): two writer tasks on the same connection while the peer does not read (link capacity 2-16 KiB), writer 1 blocked in send_all owning the send lock, "
-    "writer 2 encrypted and queued, peer resumes at a drawn tick; bulk scenario in a fraction of the adapter-recv_into / tls-recv* runs: one chunk just beyond 256 KiB (internal buffer of the adapter = "
+    "writer 2 encrypted and queued, peer resumes at a drawn tick; in two such runs out of three both send_all() calls are abandoned by a timeout / move_on scope or task.cancel() before the peer resumes "
+    "(writer 2 first or at the same tick: its cipher-text stays pending in the write BIO without a flusher) and the receives go on; bulk scenario in a fraction of the adapter-recv_into / tls-recv* runs: one chunk just beyond 256 KiB (internal buffer of the adapter = "
     "buffer of the TLS incoming reader) with receive buffers of 64-512 KiB, so that a cancelled receive hands a completely filled caller buffer back while more bytes are queued; "
     "oracle = returned bytes are a prefix of the written stream at every return and equal it after an uncancelled drain to EOF, no receive fails on a valid stream"
 )
@@ -189,9 +193,11 @@ class _Plan:
             feed.plan(t0 + tick * TICK, data, defer)
         feed.plan_fin(t0 + self.fin_tick * TICK)
 
+    dscale = 1  # (tls-duplex history mode stretches the cancel delays in some runs)
+
     def delay(self, d: int) -> float:
         """virtual delay of a cancellation requested `d` ticks from now"""
-        return d * TICK
+        return d * self.dscale * TICK
 
 
 def _is_subsequence(small: bytes, big: bytes) -> bool:
@@ -553,7 +559,10 @@ def _h_tls(world: World, name: str, into: bool, duplex: bool = False) -> None:
     (full-duplex use, e.g. a server pushing data from several tasks to a slow client while its connection task waits
     for the next request under a timeout): writer 1 is stuck in ``send_all`` owning the transport send lock, writer 2
     has encrypted its data and queues for the lock; the numbered stream arrives meanwhile, receives are cancelled as on
-    the other layers, the peer resumes reading at a planned tick.  Same oracle: what the receives return."""
+    the other layers, the peer resumes reading at a planned tick.  History mode: the two ``send_all()`` calls are
+    abandoned (timeout / move_on scope, task.cancel()) before that, leaving cipher-text pending with no flusher (D31:
+    a later receive flushed it after a successful SSL read and lost its bytes when cancelled there).
+    Same oracle: what the receives return."""
     import ssl
 
     from easynetwork.lowlevel.api_async.transports.tls import AsyncTLSStreamTransport
@@ -569,20 +578,45 @@ def _h_tls(world: World, name: str, into: bool, duplex: bool = False) -> None:
     net = SimNet(world)
     backend = SimAsyncIOBackend(net)
     blocked = duplex and not plan.baseline  # (baseline profile: the writers write, the peer reads — fault-free)
+    abandon: dict[str, tuple[str, int]] = {}
     if blocked:
         cap = (4096, 2048, 16384)[world.choose("dx.cap", 3)]
         n1 = (40000, 20000, 90000)[world.choose("dx.w1size", 3)]
         n2 = (17, 500, 20000)[world.choose("dx.w2size", 3)]
         start1 = world.choose("dx.start1", 3)  # ticks after the feed started
         start2 = start1 + world.choose("dx.start2", 5)
-        # the peer reads again: late (after its own last byte), at a drawn tick, or right after writer 2 queued
-        last = max(plan.fin_tick, start2) + 8
-        resume_tick = (last, start2 + 1 + world.choose("dx.resume", last), start2 + 1)[world.choose("dx.resume.mode", 3)]
+        jobs: list[tuple[str, int, int]] = [("writer1", start1, n1), ("writer2", start2, n2)]  # (label, start tick, size)
+        # history mode (two runs in three): both send_all() calls are abandoned (timeout / move_on scope, task.cancel())
+        # while the peer still does not read.  Writer 2 at the same tick as writer 1 or earlier: it is abandoned while
+        # queued for the send lock, its cipher-text stays in the write BIO and nobody is left to flush it (until the
+        # next operation does).  1-4 such rounds; after the first one the socket is backed up, small writes block too.
+        base = start2
+        if world.choose("dx.abandon", 3):
+            s1, s2 = start1, start2
+            for r in range(1 + world.choose("dx.ab.rounds", 4)):
+                if r:
+                    s1 = base + 1 + world.choose("dx.ab.start1", 3)
+                    s2 = s1 + world.choose("dx.ab.start2", 2)
+                    jobs += [(f"writer{2 * r + 1}", s1, (17, 500)[world.choose("dx.ab.size1", 2)]), (f"writer{2 * r + 2}", s2, (17, 500)[world.choose("dx.ab.size2", 2)])]
+                ab2 = s2 + 1 + world.choose("dx.ab.t2", 4)
+                ab1 = max(s1 + 1, ab2 + (0, 0, 1, 2, -1)[world.choose("dx.ab.t1", 5)])
+                abandon[f"writer{2 * r + 1}"] = (_AB_KINDS[world.choose("dx.ab.kind1", 3)], ab1)
+                abandon[f"writer{2 * r + 2}"] = (_AB_KINDS[world.choose("dx.ab.kind2", 3)], ab2)
+                base = max(ab1, ab2)
+            # a receive meets the left-over cipher-text with its data at hand when it spans the abandonment (longer cancel
+            # delays) or when the receiver was busy meanwhile with data waiting inside the SSL object (more pauses)
+            plan.dscale = (1, 2, 3)[world.choose("dx.ab.dscale", 3)]
+            plan.pause_den = (plan.pause_den, 2)[world.choose("dx.ab.pause", 2)]
+        # the peer reads again: late (after its own last byte), at a drawn tick, or right after writer 2 queued / the
+        # writers were abandoned
+        last = max(plan.fin_tick, base) + 8
+        resume_tick = (last, base + 1 + world.choose("dx.resume", last), base + 1)[world.choose("dx.resume.mode", 3)]
         world.fault("capacity_small")
-        world.notes.update(duplex=dict(cap=cap, w1=n1, w2=n2, start1=start1, start2=start2, resume_tick=resume_tick))
+        world.notes.update(duplex=dict(cap=cap, writers=jobs, resume_tick=resume_tick, abandon=abandon, cancel_delay_scale=plan.dscale, pause_den=plan.pause_den))
         lib, psock = net.socketpair(capacity_ab=cap)
     else:
-        cap, n1, n2, start1, start2, resume_tick = 0, 2000, 17, 0, 0, 0
+        cap, resume_tick = 0, 0
+        jobs = [("writer1", 0, 2000), ("writer2", 0, 17)]
         lib, psock = net.socketpair()
     peer = TLSPeer(world, psock, server_side=not lib_server, version=version, shape="eager")
     box: dict[str, Any] = {"plan": plan}
@@ -653,17 +687,54 @@ def _h_tls(world: World, name: str, into: bool, duplex: bool = False) -> None:
                 world.log("writer_start", label, size)
                 if blocked and peer.paused:
                     world.probe(f"duplex:{label}-starts-while-peer-not-reading")
+                me = asyncio.current_task()
+                assert me is not None
+                data = bytes(size)
+                abandoned = False
                 try:
-                    await tls.send_all(bytes(size))
+                    if label not in abandon:
+                        await tls.send_all(data)
+                    else:
+                        kind, tick = abandon[label]
+                        delay = max(0.0, t0 + tick * TICK - world.now)
+                        if kind == "timeout":
+                            try:
+                                with backend.timeout(delay):
+                                    await tls.send_all(data)
+                            except TimeoutError:
+                                abandoned = True
+                        elif kind == "move_on":
+                            with backend.move_on_after(delay) as scope:
+                                await tls.send_all(data)
+                            abandoned = scope.cancelled_caught()
+                        else:
+                            h = loop.call_later(delay, me.cancel)
+                            try:
+                                await tls.send_all(data)
+                            finally:
+                                h.cancel()
+                except asyncio.CancelledError:
+                    if label in abandon and abandon[label][0] == "task.cancel" and led.violation is None:
+                        abandoned_send(label, "task.cancel")
+                    raise
                 except (OSError, ssl.SSLError) as exc:  # not this property's business (C08); the receive side goes on
                     world.log("writer_failed", label, type(exc).__name__)
+                    return
+                if abandoned:
+                    abandoned_send(label, abandon[label][0])
                     return
                 world.log("writer_done", label)
                 if blocked and peer.paused and label == "writer1":  # (writer 2 may run first when both start at the same tick)
                     raise HarnessError(f"C10 {name}: {label} finished although the peer never read (cap={cap}, size={size})")
 
-            writers.append(loop.create_task(writer("writer1", start1, n1), name="c10-writer1"))
-            writers.append(loop.create_task(writer("writer2", start2, n2), name="c10-writer2"))
+            def abandoned_send(label: str, kind: str) -> None:
+                world.fault("cancel_at_time")
+                world.log("writer_abandoned", label, kind)
+                if tls._write_bio.pending:  # (observation only) cipher-text of an abandoned send_all() is left in the write BIO
+                    world.probe("duplex:ciphertext-left-pending-by-abandoned-send")
+
+            for label, start, size in jobs:
+                writers.append(loop.create_task(writer(label, start, size), name=f"c10-{label}"))
         spawned = 0
         while not led.stopped:
             spawned += 1
@@ -814,6 +885,7 @@ def _h_sync(world: World, name: str, mode: str, buffered: bool) -> None:
 
 # ===================================================================================================== registry
 _KINDS = ("timeout", "move_on", "kill_timer", "kill_sibling")
+_AB_KINDS = ("timeout", "move_on", "task.cancel")  # how a writer's send_all() is abandoned (tls-duplex-*, history mode)
 
 
 def _mk_async(name: str, make_layer: Callable[[], Any], into: bool, kinds: tuple[str, ...] = _KINDS, weight: int = 1, big_den: int = 0) -> Harness:
@@ -833,8 +905,8 @@ HARNESSES = [
     _mk_async("client-iter-buffered", lambda: _Client("line", True), True, kinds=("iter",)),
     Harness("tls-recv", lambda w: _h_tls(w, "tls-recv", False)),
     Harness("tls-recv_into", lambda w: _h_tls(w, "tls-recv_into", True)),
-    Harness("tls-duplex-recv", lambda w: _h_tls(w, "tls-duplex-recv", False, duplex=True)),
-    Harness("tls-duplex-recv_into", lambda w: _h_tls(w, "tls-duplex-recv_into", True, duplex=True)),
+    Harness("tls-duplex-recv", lambda w: _h_tls(w, "tls-duplex-recv", False, duplex=True), weight=2),
+    Harness("tls-duplex-recv_into", lambda w: _h_tls(w, "tls-duplex-recv_into", True, duplex=True), weight=2),
     Harness("server-copy", lambda w: _h_server(w, "server-copy", "line", False)),
     Harness("server-buffered", lambda w: _h_server(w, "server-buffered", "line", True), weight=2),
     Harness("blocking-endpoint-copy", lambda w: _h_sync(w, "blocking-endpoint-copy", "line", False)),
